@@ -35,3 +35,24 @@ pub fn bad_process_state() -> bool {
 }
 
 pub static GOOD_TABLE: [u8; 3] = [1, 2, 3];
+
+// set algebra and generic consumers expose the hash order just like `iter` does
+pub fn bad_set_difference(a: &std::collections::HashSet<i64>, b: &std::collections::HashSet<i64>) -> Vec<i64> {
+    a.difference(b).copied().collect()
+}
+
+pub fn bad_extend_from_set(a: std::collections::HashSet<i64>) -> Vec<i64> {
+    let mut v = Vec::new();
+    v.extend(a);
+    v
+}
+
+pub fn bad_debug_format(m: &HashMap<i64, String>) -> String {
+    format!("{:?}", m)
+}
+
+// point operations do not
+pub fn good_point_ops(m: &mut HashMap<i64, String>, k: i64) -> (bool, usize, Option<String>) {
+    m.insert(k + 1, String::new());
+    (m.contains_key(&k), m.len(), m.remove(&k))
+}
